@@ -20,7 +20,7 @@ func init() {
 			"(R1) ApplyOps = unmarshal → assign the whole list to kvOps → Flush with the error propagated; the log handed to the cache is read after Flush (hence already ordinal-sorted) and ReadOps serialises exactly kvOps; " +
 			"(R2) Flush and everything it reaches contain no order-sensitive map iteration, time or randomness (deletePrefix sorts its deltas by key); " +
 			"(R3) side state completeness: every way a DELETE_PREFIX operation enters a partial store also records the prefix in DeletedPrefixes (PartialKV overrides DeletePrefix and ApplyOps); " +
-			"(R4) on the cached branch RunModule applies the cached log before exporting the module output, re-marshals the deltas from the store (not from the log), and the bytes written to the store module's cached-output file are ReadOps() of that block. R1 requires the exported log to be ReadOps() on every path (never an empty substitute for a block without deltas). Also (R3) PartialKV marks a key seen only where it records it as a deleted prefix. Also (R1) no function of the store package branches on a []byte parameter being nil.",
+			"(R4) on the cached branch RunModule applies the cached log before exporting the module output, re-marshals the deltas from the store (not from the log), and the bytes written to the store module's cached-output file are ReadOps() of that block. R1 requires the exported log to be ReadOps() on every path (never an empty substitute for a block without deltas). Also (R3) PartialKV marks a key seen only where it records it as a deleted prefix. Also (R1) no function of the store package branches on a []byte parameter being nil. Also (R1) the operation log of a block is only appended to.",
 		NotCovered:  "Equality of replayed and original deltas for all pre-states (given R1–R3 it reduces to determinism of Flush, which is argued structurally, not executed).",
 		Assumptions: []string{"proto.Marshal/Unmarshal round-trip the Operations message (generated code)", "a store is in the same pre-block state when the log is replayed (C01/C07 scheduling properties)"},
 	})
@@ -275,6 +275,7 @@ func runC09(p *core.Prog, r *core.Report) {
 
 	// R4 cached branch of RunModule
 	r.GuardExact("C09.R1", "nilness", "no branch on nil-ness of a value", func() { checkNoNilnessOfValues(p, r, "C09.R1") })
+	r.GuardExact("C09.R1", "log-only-grows", "the operation log is only appended to", func() { checkOperationLogOnlyGrows(p, r, "C09.R1") })
 	r.Guard("C09.R4", "RunModule", "cached branch", func() {
 		fn := p.Func(pkgExec, "RunModule")
 		r.Touch(core.FuncName(fn))
